@@ -87,6 +87,67 @@ theorem replay_complete (caps : List Nat) (pre rest : Bytes) (hc : ∀ c ∈ cap
     (replayReads caps pre 0 rest).flatten = pre ++ rest := by
   simpa using replay_complete' caps pre rest 0 hc (Nat.zero_le _) (by simpa using hl)
 
+/-- **An answer does not depend on what arrives later**: once the bytes received so far yield an
+answer (a client random, or "not a ClientHello"), any further bytes leave it unchanged - so the
+answer cannot depend on how much of the client's later flight happened to be in the buffer -/
+theorem answer_stable (data sfx : Bytes) (h : extract data ≠ .needMore) :
+    extract (data ++ sfx) = extract data := by
+  match data, h with
+  | [], h => exact absurd rfl h
+  | [_], h => exact absurd rfl h
+  | [_, _], h => exact absurd rfl h
+  | [_, _, _], h => exact absurd rfl h
+  | [_, _, _, _], h => exact absurd rfl h
+  | t :: v0 :: v1 :: l0 :: l1 :: rest, h =>
+    simp only [List.cons_append]
+    unfold extract at h ⊢
+    simp only at h ⊢
+    by_cases hlen : l0 * 256 + l1 > maxRecordLen
+    · simp [hlen]
+    · simp only [hlen, if_false] at h ⊢
+      by_cases hshort : rest.length < l0 * 256 + l1
+      · simp [hshort] at h
+      · have hshort' : ¬ (rest ++ sfx).length < l0 * 256 + l1 := by
+          rw [List.length_append]; omega
+        have htake : (rest ++ sfx).take (l0 * 256 + l1) = rest.take (l0 * 256 + l1) :=
+          List.take_append_of_le_length (by omega)
+        simp only [hshort, hshort', if_false, htake]
+
+/-- **The prebuffer never exceeds 16 KiB**, whatever the client sends and however it arrives -/
+theorem loop_prebuffer_bounded (avail : List Nat) (pre stream : Bytes) (hp : pre.length ≤ maxPrebuffer) :
+    (readLoop avail pre stream).2.1.length ≤ maxPrebuffer := by
+  induction avail generalizing pre stream with
+  | nil => simpa [readLoop] using hp
+  | cons a avail ih =>
+    unfold readLoop
+    split
+    · exact hp
+    · split
+      · exact hp
+      · exact hp
+      · simp only
+        split
+        · exact hp
+        · apply ih
+          rw [List.length_append, List.length_take]
+          omega
+
+/-- a complete first record that is not a handshake record is answered at once (no client random,
+no waiting for more) -/
+theorem non_handshake_record_not_found (t v0 v1 l0 l1 : Nat) (rest : Bytes) (ht : t ≠ 22)
+    (hfull : l0 * 256 + l1 ≤ rest.length) :
+    extract (t :: v0 :: v1 :: l0 :: l1 :: rest) = .notFound := by
+  unfold extract
+  simp only
+  split
+  · rfl
+  · split
+    · omega
+    · simp [ht]
+
+example : extract [23, 3, 3, 0, 2, 1, 2] = .notFound ∧ extract ([23, 3, 3, 0, 2, 1, 2] ++ [5, 5]) = .notFound ∧
+    extract [23, 3, 3, 0, 2, 1] = .needMore := by decide
+
 example : extract (chRecord [3, 1] [3, 3] (List.replicate 32 7) [] [0x13, 0x01] [0] [] ++ [9, 9]) =
     .found (List.replicate 32 7) := by decide +kernel
 
